@@ -484,10 +484,33 @@ def classify(ad, e):
     return "other"
 
 
+class Hang(BaseException):
+    """the implementation did not return within the per-call time limit"""
+
+
+def _alarm(signum, frame):
+    raise Hang("no result within %s s" % CALL_LIMIT)
+
+
+CALL_LIMIT = 3.0
+
+
+def limited(fn, *args):
+    """run one implementation call under a wall-clock limit (a parser that loops must not hang the check)"""
+    import signal
+    old = signal.signal(signal.SIGALRM, _alarm)
+    signal.setitimer(signal.ITIMER_REAL, CALL_LIMIT)
+    try:
+        return fn(*args)
+    finally:
+        signal.setitimer(signal.ITIMER_REAL, 0)
+        signal.signal(signal.SIGALRM, old)
+
+
 def run_write(name, v):
     ad = A[name]
     try:
-        out = do_make(ad, v).write()
+        out = limited(lambda: do_make(ad, v).write())
         return {"k": "W", "s": name, "v": v, "raised": False, "out": L(out)}, ""
     except BaseException as e:   # noqa - every way of refusing counts as "raised"
         return {"k": "W", "s": name, "v": v, "raised": True, "out": []}, "%s: %s" % (type(e).__name__, str(e)[:80])
@@ -496,7 +519,7 @@ def run_write(name, v):
 def run_parse(name, b):
     ad = A[name]
     try:
-        o = do_parse(ad, b)
+        o = limited(do_parse, ad, b)
     except BaseException as e:   # noqa
         return {"k": "P", "s": name, "b": list(b), "acc": False, "exc": classify(ad, e), "pv": 0,
                 "rwk": "none"}, "%s: %s" % (type(e).__name__, str(e)[:80])
